@@ -1227,6 +1227,27 @@ pub fn gen_shader(ch: &mut Ch, p: &Profile) -> Shader {
                             EResult::Struct(sh.structs.len() - 1)
                         }
                     };
+                    // the result may be a struct that is also an entry parameter (this entry's own
+                    // input or another entry's): only float members at plain locations qualify
+                    if p.io_structs {
+                        let mut cand: Vec<usize> = params.iter().filter_map(|q| if let EParam::Struct { st, .. } = q { Some(*st) } else { None }).collect();
+                        for e in &sh.entries {
+                            for q in &e.params {
+                                if let EParam::Struct { st, .. } = q {
+                                    cand.push(*st);
+                                }
+                            }
+                        }
+                        cand.retain(|st| {
+                            let ms = &sh.structs[*st].members;
+                            !ms.is_empty() && ms.iter().all(|m| matches!(m.io, Io::Loc { flat: false, .. }) && matches!(m.ty, Ty::S(Sc::F32) | Ty::V(_, Sc::F32)))
+                        });
+                        cand.sort();
+                        cand.dedup();
+                        if !cand.is_empty() && ch.chance(1, 5) {
+                            result = EResult::Struct(*ch.pick(&cand));
+                        }
+                    }
                 }
                 Stage::Compute => {
                     if p.io_structs && ch.chance(2, 8) {
